@@ -87,6 +87,25 @@ inductive SetRes
   | panic
 deriving DecidableEq, Repr, Inhabited
 
+/-- The part of `overlayEnviron.Set` after the forwarding test: the write into the overlay's own
+    `values` map (`prev` is the previous variable, looked up in the overlay, else in the parent). -/
+def envSetLocal (h : EnvHeap) (o : Nat) (name : Bytes) (vr prev : Var) : SetRes :=
+  let s := scopeAt h o
+  -- `if o.values == nil { o.values = make(...) }`
+  let vals : List (Bytes × Var) := s.values.getD []
+  let h1 := setScopeValues h o vals
+  if vr.kind ≠ kindKeepValue && prev.readOnly then .err h1
+  else
+    let vr1 : Var := if vr.kind = kindKeepValue then { vr with kind := prev.kind, val := prev.val } else vr
+    if !vr1.set then
+      if prev.loc then
+        .ok (setScopeValues h1 o (aset vals name { vr1 with loc := true }))
+      else
+        -- delete, then fall through to the final store
+        .ok (setScopeValues h1 o (aset (aerase vals name) name { vr1 with loc := prev.loc || vr1.loc }))
+    else
+      .ok (setScopeValues h1 o (aset vals name { vr1 with loc := prev.loc || vr1.loc }))
+
 /-- `overlayEnviron.Set`, line by line.  A `funcScope` overlay forwards a non-local write to
     `o.parent.(expand.WriteEnviron)`: to the parent overlay, or — if the parent were the root
     Environ — to the root (logged in `rootSets`; a root that is not a WriteEnviron, or a nil
@@ -108,25 +127,7 @@ def envSet (rootWritable : Bool) : Nat → EnvHeap → Nat → Bytes → Var →
         | some v, _ => v
         | none, .nil => prev0
         | none, p => envGetRef h (h.scopes.length + 1) p name
-      -- `if o.values == nil { o.values = make(...) }`
-      let vals : List (Bytes × Var) := s.values.getD []
-      let h1 := setScopeValues h o vals
-      let vrE : Option Var :=
-        if vr.kind = kindKeepValue then some { vr with kind := prev.kind, val := prev.val }
-        else if prev.readOnly then none
-        else some vr
-      match vrE with
-      | none => .err h1
-      | some vr1 =>
-        if !vr1.set then
-          if prev.loc then
-            .ok (setScopeValues h1 o (aset vals name { vr1 with loc := true }))
-          else
-            -- delete, then fall through to the final store
-            let vals2 := aerase vals name
-            .ok (setScopeValues h1 o (aset vals2 name { vr1 with loc := prev.loc || vr1.loc }))
-        else
-          .ok (setScopeValues h1 o (aset vals name { vr1 with loc := prev.loc || vr1.loc }))
+      envSetLocal h o name vr prev
 
 def envSetTop (rootWritable : Bool) (h : EnvHeap) (o : Nat) (name : Bytes) (vr : Var) : SetRes :=
   envSet rootWritable (h.scopes.length + 1) h o name vr
@@ -507,6 +508,129 @@ def fieldsSeqSplit (g : Grow) (h : Heap) (w : Nat) : Option (Heap × Nat × Bool
   let (h1, c) := newWord h (wordAt h w)
   (splitBraces g h1 c).map fun r => (r.1, c, r.2)
 
+/-! ### expand.bracesSeqRec -/
+
+/-- `slices.Concat(…)` of parts: always a fresh array (nil when there is nothing). -/
+def concatParts (g : Grow) (h : Heap) (ps : List Part) : Heap × Slice :=
+  if ps.isEmpty then (h, Slice.nil)
+  else
+    let c := newCap g h.parr.length 0 ps.length
+    ({ h with parr := h.parr ++ [padTo ps c] }, { arr := h.parr.length, off := 0, len := ps.length, cap := c })
+
+/-- The yield wrapper of `expand`: `w.Parts = slices.Concat(left, w.Parts)` for every yielded word. -/
+def prependLeft (g : Grow) (left : Slice) : Heap → List Nat → Heap
+  | h, [] => h
+  | h, w :: ws =>
+    let r := concatParts g h (cells h.parr left ++ partsOf h w)
+    prependLeft g left (setWord r.1 w r.2) ws
+
+def intVal (s : Bytes) : Int :=
+  match s with
+  | [] => 0
+  | c :: r => if c = cMinus then -(digitsVal r : Int) else if c = cPlus then digitsVal r else digitsVal s
+
+def natDigits (n : Nat) : Bytes := (Nat.toDigits 10 n).map fun c => c.toNat.toUInt8
+
+/-- `strconv.FormatInt(n, 10)` -/
+def formatInt (n : Int) : Bytes := if n < 0 then cMinus :: natDigits n.natAbs else natDigits n.natAbs
+
+/-- `fmt.Sprintf("%0*d", width, n)` -/
+def formatPad (width : Nat) (n : Int) : Bytes :=
+  let ds := natDigits n.natAbs
+  let sign : Bytes := if n < 0 then [cMinus] else []
+  sign ++ List.replicate (width - sign.length - ds.length) 48 ++ ds
+
+def hasLeadingZeros (s : Bytes) : Bool :=
+  let s' := match s with
+    | c :: r => if c = cMinus then r else s
+    | [] => s
+  s'.length > 1 && s'.getD 0 0 = 48
+
+/-- the values `n` of the sequence loop (at most `fuel` of them) -/
+def seqVals (to incr : Int) (upward : Bool) : Nat → Int → List Int
+  | 0, _ => []
+  | fuel + 1, n => if (upward && n ≤ to) || (!upward && n ≥ to) then n :: seqVals to incr upward fuel (n + incr) else []
+
+/-- The literals a sequence brace `{from..to[..incr]}` expands to (`none`: `fromLit[0]` on an empty
+    string panics).  Only the first 16Ki+1 are ever asked for. -/
+def seqLits (h : Heap) (bo : BraceObj) : Option (List Bytes) :=
+  let fromLit := wordLit h (bo.elems.getD 0 0)
+  let toLit := wordLit h (bo.elems.getD 1 0)
+  let nums := parseIntOk fromLit && parseIntOk toLit
+  if !nums && (fromLit.isEmpty || toLit.isEmpty) then none
+  else
+    let frm : Int := if nums then intVal fromLit else (fromLit.getD 0 0).toNat
+    let to : Int := if nums then intVal toLit else (toLit.getD 0 0).toNat
+    let width := if nums && (hasLeadingZeros fromLit || hasLeadingZeros toLit) then max fromLit.length toLit.length else 0
+    let upward := frm ≤ to
+    let incr0 : Int :=
+      if bo.elems.length > 2 then
+        let l := wordLit h (bo.elems.getD 2 0)
+        let n := if parseIntOk l then (intVal l).natAbs else 0
+        if n ≠ 0 then n else 1
+      else 1
+    let incr := if upward then incr0 else -incr0
+    some ((seqVals to incr upward 16385 frm).map fun n =>
+      if !nums then [n.toNat.toUInt8] else if width > 0 then formatPad width n else formatInt n)
+
+/-- One alternative of a brace: `next := *word; next.Parts = …; expand(&next)`. -/
+def bracesAlt (g : Grow) (rec : Heap → Nat → Option (Heap × List Nat)) (word : Nat) (left : Slice)
+    (h : Heap) (mk : Heap → Heap × Slice) : Option (Heap × List Nat) :=
+  let (h1, next) := newWord h (wordAt h word)     -- next := *word
+  let r := mk h1
+  let h2 := setWord r.1 next r.2                  -- next.Parts = …
+  match rec h2 next with
+  | none => none
+  | some (h3, ws) => some (prependLeft g left h3 ws, ws)
+
+/-- the loop over the alternatives (sequence values or list elements) -/
+def bracesAlts (g : Grow) (rec : Heap → Nat → Option (Heap × List Nat)) (word : Nat) (left : Slice) :
+    Heap → List (Heap → Heap × Slice) → Option (Heap × List Nat)
+  | h, [] => some (h, [])
+  | h, mk :: mks =>
+    match bracesAlt g rec word left h mk with
+    | none => none
+    | some (h1, ws) =>
+      match bracesAlts g rec word left h1 mks with
+      | none => none
+      | some (h2, ws2) => some (h2, ws ++ ws2)
+
+/-- the loop `for i, wp := range word.Parts` -/
+def bracesScan (g : Grow) (rec : Heap → Nat → Option (Heap × List Nat)) (word : Nat) :
+    Heap → List Part → Slice → Option (Heap × List Nat)
+  | h, [], left =>
+    let (h1, w) := newWord h left            -- yield(&syntax.Word{Parts: left})
+    some (h1, [w])
+  | h, .brace b :: rest, left =>
+    let bo := braceAt h b
+    if bo.seq then
+      match seqLits h bo with
+      | none => none
+      | some lits =>
+        bracesAlts g rec word left h (lits.map fun v => fun h =>
+          -- append([]syntax.WordPart{lit}, rest...)
+          let r0 := sliceMake h.parr [Part.lit v] 1
+          let r1 := sliceAppendMany g r0.1 r0.2 rest
+          ({ h with parr := r1.1 }, r1.2))
+    else
+      bracesAlts g rec word left h (bo.elems.map fun e => fun h => concatParts g h (partsOf h e ++ rest))
+  | h, p :: rest, left =>
+    let r := sliceAppend g h.parr left p      -- left = append(left, wp)
+    bracesScan g rec word { h with parr := r.1 } rest r.2
+
+/-- `bracesSeqRec(word, yield)`: the heap afterwards and the yielded words in order. -/
+def bracesRec (g : Grow) : Nat → Heap → Nat → Option (Heap × List Nat)
+  | 0, _, _ => none
+  | fuel + 1, h, w => bracesScan g (bracesRec g fuel) w h (partsOf h w) Slice.nil
+
+/-- The brace part of `expand.FieldsSeq` for one word of the tree: copy, SplitBraces, and — when it
+    split — `BracesSeq`.  Returns the words handed to `expandWord`. -/
+def fieldsSeqWords (g : Grow) (fuel : Nat) (h : Heap) (w : Nat) : Option (Heap × List Nat) :=
+  match fieldsSeqSplit g h w with
+  | none => none
+  | some (h1, c, false) => some (h1, [c])
+  | some (h1, c, true) => bracesRec g fuel h1 c
+
 /-! ### the other places that build words or statements next to the tree -/
 
 /-- Slices of `*Word` (call arguments), of `*Assign`, and statement objects, for the small sites:
@@ -563,6 +687,63 @@ def hdocSplit (g : Grow) : IdHeap → Slice → List (List Nat) → List (Nat ×
     let r1 := hdocLines g tag r0.1 r0.2 out 1 (k - 1)
     hdocSplit g r1.1 r1.2.1 r1.2.2 rest
 
+/-! ### Runner.flattenAssigns and the background statement copy -/
+
+/-- `syntax.Assign` as far as flattenAssigns touches it: `Name` (a `*Lit` id or nil), `Naked`,
+    `Value` (a `*Word` id or nil). -/
+structure AssignObj where
+  name : Option Nat := none
+  naked : Bool := false
+  value : Option Nat := none
+deriving DecidableEq, Repr, Inhabited
+
+/-- Objects flattenAssigns can create: assignments; literals and words are counted only. -/
+structure AHeap where
+  assigns : List AssignObj := []
+  lits : Nat := 0
+  words : Nat := 0
+deriving DecidableEq, Repr, Inhabited
+
+/-- One expanded field `name[=value]` of a `declare $x` argument: `as := &syntax.Assign{}`, then
+    `as.Name = &syntax.Lit{…}` and `as.Naked = true` or `as.Value = &syntax.Word{…}`. -/
+def flattenField (h : AHeap) (hasEq : Bool) : AHeap × Nat :=
+  let a := h.assigns.length
+  let h1 : AHeap := { h with assigns := h.assigns ++ [{}] }                       -- as := &syntax.Assign{}
+  let h2 : AHeap := { h1 with assigns := h1.assigns.set a { (h1.assigns.getD a {}) with name := some h1.lits }, lits := h1.lits + 1 }
+  if !hasEq then
+    ({ h2 with assigns := h2.assigns.set a { (h2.assigns.getD a {}) with naked := true } }, a)
+  else
+    ({ h2 with assigns := h2.assigns.set a { (h2.assigns.getD a {}) with value := some h2.words }, lits := h2.lits + 1, words := h2.words + 1 }, a)
+
+/-- `Runner.flattenAssigns(args)`: an argument with a name is yielded as it is; one without is
+    expanded to fields (`fields a` = for each field whether it contains `=`), each a new Assign. -/
+def flattenAssigns (fields : Nat → List Bool) : AHeap → List Nat → AHeap × List Nat
+  | h, [] => (h, [])
+  | h, a :: rest =>
+    if (h.assigns.getD a {}).name.isSome then
+      let r := flattenAssigns fields h rest
+      (r.1, a :: r.2)
+    else
+      let step := (fields a).foldl (fun (acc : AHeap × List Nat) e => let r := flattenField acc.1 e; (r.1, acc.2 ++ [r.2])) (h, [])
+      let r := flattenAssigns fields step.1 rest
+      (r.1, step.2 ++ r.2)
+
+/-- `syntax.Stmt` as far as `Runner.stmt` touches it. -/
+structure StmtObj where
+  cmd : Nat := 0
+  background : Bool := false
+  disown : Bool := false
+  redirs : Slice := Slice.nil
+deriving DecidableEq, Repr, Inhabited
+
+/-- `st2 := *st; st2.Background = false; st2.Disown = false` — returns the id of `st2`. -/
+def bgStmtCopy (h : List StmtObj) (st : Nat) : List StmtObj × Nat :=
+  let c := h.length
+  let h1 := h ++ [h.getD st {}]
+  let h2 := h1.set c { (h1.getD c {}) with background := false }
+  let h3 := h2.set c { (h2.getD c {}) with disown := false }
+  (h3, c)
+
 /-! ## Part C — vocabulary of the write-site table -/
 
 /-- One syntactic write (assignment, `append`, `copy`, `slices.Insert/Delete`, `clear`, sort) in
@@ -580,7 +761,7 @@ structure OverlaySite where
   func : String
   form : String      -- literal | newOverlayEnviron
   parent : String
-  funcScope : Bool
+  funcScope : String   -- source text of the funcScope value ("false" when absent)
 deriving DecidableEq, Repr, Inhabited
 
 /-- An assignment to `r.writeEnv` (any receiver): the right-hand side's shape. -/
